@@ -1,3 +1,5 @@
+import ast
+
 from ._containers import run_container
 
 LEVEL_TEXT = (
@@ -111,6 +113,32 @@ def extra(ctx, res):
         res.unknown("P-ABSENT", "TemporalHypergraph.subhypergraph", "h.add_node(node)", "add-if-absent", "no add_node call in the snapshot / window builders themselves (they may delegate)", "hypergraphx/core/temporal_hypergraph.py")
     with res.guard("check_filter_clientsctx, res, DEGREE:2"):
         check_filter_clients(ctx, res, DEGREE[:2])
+    # ---- M-SWEEP: aggregate() walks the records ONCE with a pointer that only moves forward while `t_start <= records[p][0] < t_end`:
+    #      that finds every record of a window only when the records are sorted by time.  The hyperedge index is in insertion order
+    #      (a later add_edge with an earlier time, a re-insertion after remove_node(keep_edges=True))
+    with res.guard("M-SWEEP"):
+        res.rules["M-SWEEP"] = "the one-pass window sweep of aggregate() runs over the records sorted by time (never over the edge index in insertion order)"
+        av = ctx.view("TemporalHypergraph.aggregate")
+        swept = []
+        for w in walk_no_nested(av.fi.node):
+            if isinstance(w, ast.While):
+                for x in ast.walk(w.test):
+                    if isinstance(x, ast.Subscript) and isinstance(x.value, ast.Subscript) and isinstance(x.value.value, ast.Name) and isinstance(x.slice, ast.Constant) and x.slice.value == 0 and isinstance(x.value.slice, ast.Name):
+                        swept.append((x.value.value.id, w))
+        if not swept:
+            res.unknown("M-SWEEP", av.fi.short, "while ... sorted_edges[edge_index][0] < t_end", "sorted", "no pointer sweep over a record list recognised", loc(av.fi, av.fi.node))
+        for name_, w in swept[:1]:
+            defs = [a for a in walk_no_nested(av.fi.node) if isinstance(a, ast.Assign) and any(isinstance(t, ast.Name) and t.id == name_ for t in a.targets)]
+            is_sorted = lambda e: isinstance(e, ast.Call) and ((isinstance(e.func, ast.Name) and e.func.id == "sorted") or (isinstance(e.func, ast.Name) and e.func.id in ("list", "tuple") and e.args and is_sorted(e.args[0])))
+            sorted_defs = [a for a in defs if is_sorted(av.inline(a.value, depth=2))]
+            in_place = any(isinstance(c, ast.Call) and isinstance(c.func, ast.Attribute) and c.func.attr == "sort" and isinstance(c.func.value, ast.Name) and c.func.value.id == name_ for c in walk_no_nested(av.fi.node))
+            from_index = any(isinstance(x, ast.Call) and isinstance(x.func, ast.Attribute) and x.func.attr in ("get_edges", "keys") or (isinstance(x, ast.Attribute) and x.attr == "_edge_list") for a in defs for x in ast.walk(a.value))
+            if defs and (len(sorted_defs) == len(defs) or in_place):
+                res.ok("M-SWEEP", av.fi.short, norm(defs[0])[:80], "sorted", loc(av.fi, defs[0]))
+            elif defs and from_index:
+                res.violation("M-SWEEP", av.fi.short, norm(defs[0])[:80], "sorted", f"`{name_}` is the edge index in INSERTION order, and the window sweep moves its pointer forward only: a record with an earlier time that was inserted after a later one is never reached in its window (and stops the sweep for the records behind it)", loc(av.fi, defs[0]))
+            else:
+                res.unknown("M-SWEEP", av.fi.short, name_, "sorted", "how the swept record list is ordered was not decided", loc(av.fi, w))
     with res.guard("general lint pack over the property's files"):
         from ..lints import check_pack
 
